@@ -1,5 +1,6 @@
 """C20 — pair, tuple and callable wrappers forward values and calls faithfully (DESIGN §4 C20)."""
 import itertools
+import os
 import random
 
 from lib import Case, fmt_list
@@ -9,22 +10,43 @@ DRIVER = "drv-c20"
 PROOF_MODULES = ["TetlProofs.C20.Props"]
 HARNESS = "harness/c20.cpp"
 HARNESS_FLAGS = ["-O0", "-g0"]          # ~600 template instantiations on each of the two libraries
+
+
+def _probe(code):
+    """does this snippet compile against the tree under test? (a construct whose absence would stop the harness from compiling
+    is switched by a macro, so that its loss is reported as a violation on a case line, not as a build failure)"""
+    import subprocess
+    import lib
+    p = subprocess.run([lib.CXX, "-std=c++20", "-fsyntax-only", "-I", os.path.join(lib.REPO, "include"), "-x", "c++", "-"],
+                       input=code, text=True, stdout=subprocess.PIPE, stderr=subprocess.PIPE)
+    return p.returncode == 0
+
+
+HARNESS_FLAGS.append("-DC20_HAS_IFN_MEMPTR=%d" % _probe(
+    "#include <etl/functional.hpp>\nstruct S { int d; long q(int) & { return 0; } };\n"
+    "etl::inplace_function<long(S&, int), 32> f{&S::q}; etl::inplace_function<int(S&), 32> g{&S::d};\n"
+    "long use(S& s) { return f(s, 1) + g(s); }\n"))
 SOURCES = ["include/etl/_utility/pair.hpp", "include/etl/_tuple", "include/etl/_functional/invoke.hpp",
            "include/etl/_functional/inplace_function.hpp", "include/etl/_functional/function_ref.hpp",
            "include/etl/_functional/reference_wrapper.hpp", "include/etl/_functional/bind_front.hpp",
            "include/etl/_functional/not_fn.hpp", "include/etl/_utility/forward.hpp", "include/etl/_utility/forward_like.hpp"]
 RULE = ("Stateless lines: (pair cmp) every pair of pairs over {0,1,2} for int elements and over {0,1,NaN} for double elements, all six "
-        "relations; (pair value ops) 20 operations (construct from lvalues/rvalues, copy, move, converting copy/move, copy/move/"
-        "converting assignment, member/free/self swap, make_pair, get through the four reference qualifications, structured "
-        "binding) x all 36 combinations of element kinds {int, instrumented copy+move class, move-only, copy-only, int&, int const}; "
-        "(tuple) equality of every pair of tuples over {0,1,2} with arity 1..3, 17 value operations x 6 uniform kinds x arity 1..3, "
-        "apply through the four tuple categories, tuple_cat of 1..3 tuples of arity 1..2 as lvalues and rvalues, make_from_tuple; "
-        "(invoke) function / function pointer / lambda / function object in four categories with 0..2 forwarded arguments in all "
-        "category combinations / member function and member data pointers through object, derived object, reference_wrapper, "
-        "pointer, pointer to derived; (function_ref, reference_wrapper, bind_front with 0..2 bound and 0..2 call arguments, not_fn) "
-        "every wrapper qualification x every argument category combination.  Observed per line: values, what a move leaves in the "
-        "source (-1 for instrumented elements), the number of copies, the call log (target, category of the target object, category "
-        "and value of every argument) and the result.  Histories on inplace_function: 4 named objects (one of smaller capacity), "
+        "relations; (pair value ops) 21 operations (default construction, construct from lvalues/rvalues, copy, move, converting "
+        "copy/move, copy/move/converting assignment, member/free/self swap, make_pair, get through the four reference qualifications, "
+        "structured binding) x all 36 combinations of element kinds {int, instrumented copy+move class, move-only, copy-only, int&, "
+        "int const}; (tuple) equality of every pair of tuples over {0,1,2} with arity 0..3, 17 value operations x 6 uniform kinds x "
+        "arity 1..3 (tuples of mixed element kinds are not generated), apply through the four tuple categories x the four callee "
+        "categories, tuple_cat of 1..3 tuples of arity 1..2 of kinds {int, instrumented, move-only, copy-only} as lvalues and rvalues, "
+        "make_from_tuple; (invoke) function / function pointer / lambda / function object in four categories with 0..2 forwarded "
+        "arguments in all category combinations / member function and member data pointers through object, derived object, "
+        "reference_wrapper, pointer, pointer to derived; (function_ref incl. const-rvalue arguments; reference_wrapper call/copy/rebind; "
+        "bind_front with 0..2 bound arguments - each a plain object bound from an lvalue or an rvalue, or a reference_wrapper - and "
+        "0..2 call arguments, the wrapper called directly, through a copy and through a move-constructed wrapper; not_fn called "
+        "directly, through a copy, through a moved wrapper; inplace_function around a pointer to member function / data) every wrapper "
+        "qualification x every argument category combination.  Observed per line: values, what a move leaves in the source (-1 for "
+        "instrumented elements), the number of copies, the call log (target, category of the target object, per argument the "
+        "category seen by a forwarding parameter, whether it arrived as a reference_wrapper, and its value) and the result.  "
+        "Histories on inplace_function: 4 named objects (one of smaller capacity), "
         "closures of 5 sizes up to the capacity, trivially and non-trivially copyable; exhaustive: every sequence of 3 (thorough: 4) "
         "operations from an alphabet of 20 (construct from closure / empty / copy / move, copy/move/self assignment, reset, swap, "
         "self-swap, call), each followed by a call of every object; random (VERIF_SEED): histories of 10-40 operations over all "
@@ -35,27 +57,32 @@ ASSUMPTIONS = ["libstdc++ 12 std::pair / std::tuple / std::invoke / std::referen
                "are the reference for spec validation (R2); std::function stands in for the owning wrapper: a moved-from std::function "
                "is empty in libstdc++ (the standard leaves it unspecified), as the spec requires of inplace_function",
                "function_ref has no std counterpart in C++20: the reference is the direct call P0792 prescribes",
-               "element types are ordered by a strict order for the relational operators (int); for partially ordered elements (NaN) "
-               "see the known finding F-C20-pair-rel-unordered",
+               "for element types with unordered values (double with NaN) the pair relations are claimed only outside the input class "
+               "Spec.unorderedPair (known finding F-C20-pair-rel-unordered; the class is exact: pair_rels_dbl_iff)",
                "an object is not copy- or move-constructed from itself (precondition `Spec.valid`)"]
 TRUSTED = ["hand model Tetl/C20/Model.lean tied to the source by the correspondence run (R1) on every run",
            "spec Tetl/C20/Spec.lean validated against libstdc++ (R2) on every run",
            "the instrumented element and callable types of harness/c20.cpp (copy counter, moved-from marker, call log, lifetime registry)",
-           "value categories (decltype) are checked by the static_assert matrix of harness/c20.cpp against libstdc++, not by Lean"]
+           "value categories as TYPES (decltype of get/invoke/apply/... results) are checked only by the static_assert matrix of "
+           "harness/c20.cpp against libstdc++ at harness compile time; no Lean statement covers them",
+           "the models of invoke / reference_wrapper / function_ref / bind_front / not_fn / apply are transcriptions of one-line headers: "
+           "their theorems are immediate, so for these wrappers the evidence is the correspondence run (impl = model, spec = libstdc++), "
+           "not the proof"]
 SEARCH_CAP = 400000
 
 KINDS = [0, 1, 2, 3, 4, 5]
-PAIR_OPS = ["ctor", "ctorr", "copy", "move", "assign", "massign", "swap", "fswap", "selfswap", "make", "maker",
+PAIR_OPS = ["dflt", "ctor", "ctorr", "copy", "move", "assign", "massign", "swap", "fswap", "selfswap", "make", "maker",
             "get", "getc", "getr", "getcr", "sb", "conv", "convr", "cassign", "cmassign"]
-TUPLE_OPS = ["ctor", "ctorr", "copy", "move", "swap", "selfswap", "make", "maker", "get", "getc", "getr", "getcr",
+TUPLE_OPS = ["dflt", "ctor", "ctorr", "copy", "move", "swap", "selfswap", "make", "maker", "get", "getc", "getr", "getcr",
              "mft", "mftr", "fwd", "tie"]
 TYPEQ = ["make_pair_unwraps_refwrap", "make_tuple_unwraps_refwrap", "tuple_cat_value_types", "tuple_cat_keeps_ref",
          "tuple_cat_keeps_nested", "tuple_copy_assignable", "tuple_move_assignable", "tuple_get_by_type",
-         "tuple_structured_binding", "pair_ref_copy_assignable"]
+         "tuple_structured_binding", "pair_ref_copy_assignable", "pair_get_by_type", "tuple_converting_ctor"]
 TYPE_FINDINGS = {"tuple_cat_keeps_ref": "F-C20-tuple-cat-decays",
                  "tuple_cat_keeps_nested": "F-C20-tuple-cat-decays", "tuple_copy_assignable": "F-C20-tuple-not-assignable",
                  "tuple_move_assignable": "F-C20-tuple-not-assignable", "tuple_get_by_type": "F-C20-tuple-get-by-type",
-                 "tuple_structured_binding": "F-C20-tuple-structured-binding"}
+                 "tuple_structured_binding": "F-C20-tuple-structured-binding",
+                 "pair_get_by_type": "F-C20-pair-get-by-type", "tuple_converting_ctor": "F-C20-tuple-converting-ctors"}
 NAN = 9
 
 
@@ -152,8 +179,8 @@ def generate(tier, seed):
         b = [rnd.randint(0, 99), rnd.randint(0, 99)]
         add("pair op=%s t=%s a=%s b=%s" % (rnd.choice(PAIR_OPS), fmt_list([rnd.choice(KINDS), rnd.choice(KINDS)]), fmt_list(a), fmt_list(b)),
             "pair/random")
-    # ---- tuple equality: all pairs of tuples over the domain, arity 1..3
-    for n in (1, 2, 3):
+    # ---- tuple equality: all pairs of tuples over the domain, arity 0..3 (arity 0: the one empty tuple)
+    for n in (0, 1, 2, 3):
         for a in itertools.product(V, repeat=n):
             for b in itertools.product(V, repeat=n):
                 add("tuple op=eq a=%s b=%s" % (fmt_list(a), fmt_list(b)), "tuple/eq")
@@ -166,9 +193,10 @@ def generate(tier, seed):
                     b = [x + 3 for x in a]
                     add("tuple op=%s t=%s a=%s b=%s" % (op, fmt_list([k] * n), fmt_list(a), fmt_list(b)), "tuple/" + op)
     for n in (1, 2, 3):
-        for q in range(4):
-            for base in ([1, 2, 3], [0, 0, 9]):
-                add("tuple op=apply q=%d a=%s" % (q, fmt_list(base[:n])), "tuple/apply")
+        for q in range(4):          # category of the tuple
+            for c in range(4):      # category of the callee (forward<F>(f))
+                for base in ([1, 2, 3], [0, 0, 9]):
+                    add("tuple op=apply q=%d c=%d a=%s" % (q, c, fmt_list(base[:n])), "tuple/apply")
     # ---- tuple_cat
     shapes = [list(t) for m in (1, 2, 3) for t in itertools.product((1, 2), repeat=m)]
     for t in (0, 1, 2, 3):
@@ -201,13 +229,16 @@ def generate(tier, seed):
     # ---- function_ref, inplace_function argument forwarding
     for c in (0, 1):
         for act in ("call", "copy"):
-            for xc in (0, 1, 2):
+            for xc in (0, 1, 2, 3):
                 add("fref f=fob c=%d act=%s x=[1,2,3] xc=[%d]" % (c, act, xc), "fref/fob")
     for f in ("fn", "fptr", "lam"):
         for act in ("call", "copy"):
             add("fref f=%s c=0 act=%s x=[4,2] xc=[]" % (f, act), "fref/" + f)
-    for xc in (0, 1, 2):
+    for xc in (0, 1, 2, 3):
         add("ifn2 x=[1,2,3] xc=[%d]" % xc, "ifn2")
+    for v in (3, 8):
+        add("ifn2 f=memfn x=[%d]" % v, "ifn2/memptr")
+        add("ifn2 f=memdata x=[] v=%d" % v, "ifn2/memptr")
     # ---- reference_wrapper, bind_front, not_fn
     for cst in (0, 1):
         for act in ("call", "copy", "rebind"):
@@ -217,15 +248,25 @@ def generate(tier, seed):
     for q in range(4):
         for bl in (0, 1):
             for nb in (0, 1, 2):
-                for n in (0, 1, 2):
-                    for xc in cat_lists(n):
-                        add("bf f=fob q=%d bl=%d b=%s x=%s xc=%s" % (q, bl, fmt_list([1, 2][:nb]), fmt_list([3, 5][:n]), fmt_list(xc)), "bf/fob")
+                # br: which bound arguments are handed over as ref(object); act: call the wrapper, a copy of it, or one moved from it
+                for br in itertools.product((0, 1), repeat=nb):
+                    for act in ("call", "copy", "move"):
+                        plain = act == "call" and not any(br)
+                        if all(br) and nb > 0 and bl == 1:
+                            continue          # bl only concerns plain arguments
+                        for n in ((0, 1, 2) if plain else (0, 1)):
+                            for xc in cat_lists(n):
+                                add("bf f=fob q=%d bl=%d b=%s br=%s act=%s x=%s xc=%s"
+                                    % (q, bl, fmt_list([1, 2][:nb]), fmt_list(br), act, fmt_list([3, 5][:n]), fmt_list(xc)),
+                                    "bf/fob" if plain else ("bf/fob-ref" if any(br) else "bf/fob-" + act))
         for nb in (0, 1, 2):
             add("bf f=fn q=%d bl=0 b=%s x=%s" % (q, fmt_list([1, 2][:nb]), fmt_list([3, 5][:2 - nb])), "bf/fn")
         for p in (0, 1):
-            for n in (0, 1, 2):
-                for xc in cat_lists(n):
-                    add("nf q=%d p=%d x=%s xc=%s" % (q, p, fmt_list([3, 5][:n]), fmt_list(xc)), "nf")
+            for act in ("call", "copy", "move"):
+                for n in ((0, 1, 2) if act == "call" else (0, 1)):
+                    for xc in cat_lists(n):
+                        add("nf q=%d p=%d act=%s x=%s xc=%s" % (q, p, act, fmt_list([3, 5][:n]), fmt_list(xc)),
+                            "nf" if act == "call" else "nf/" + act)
     for q in TYPEQ:
         add("typeq q=%s" % q, "typeq")
     # ---- inplace_function histories: every sequence of `depth` operations of the alphabet
@@ -286,31 +327,43 @@ def group_of(case):
 
 
 CLAIMED = True
-TECHNIQUE = ("Lean 4 proof: hand model of pair/tuple members, invoke dispatch, the call wrappers and the inplace_function vtable-thunk "
-             "machine (with object lifetimes) refines a declarative spec for all element values, arities, argument lists and histories; "
-             "model tied to the code by exhaustive small-scope + random correspondence runs; value categories by a static_assert matrix")
+TECHNIQUE = ("Lean 4 proofs about a hand model + differential testing.  Proved without bounds: the lexicographic pair relations, tuple "
+             "equality, tuple_cat, and the inplace_function vtable-thunk machine (with object lifetimes) refining an owner semantics for all "
+             "histories.  The forwarding wrappers (invoke, reference_wrapper, function_ref, bind_front, not_fn, apply) are one-line headers "
+             "whose model is a transcription: their call-once theorems are immediate and the evidence for them is the exhaustive "
+             "small-scope correspondence run against the code and against libstdc++.  Value categories as types (decltype) are NOT "
+             "proved in Lean: they are compared with libstdc++ by a compile-time static_assert matrix; their run-time projection "
+             "(which overload / parameter category the instrumented target sees) is data of the model and compared on every line.")
 LEVEL_TEXT = ("pair and tuple members are modelled as the member-wise expansion the headers write (construction, copy/move, assignment, "
-              "swap, get, the relational operators as written through operator< only, the tuple equality fold, tuple_cat as the "
-              "left fold of pairwise concatenation, apply / make_from_tuple as index-sequence expansions with checked element reads); "
-              "invoke as its three-way member-pointer dispatch; reference_wrapper, function_ref, bind_front, not_fn as the calls they "
-              "forward to; inplace_function as its vtable thunks (copy, relocate, destroy, invoke) acting on storage cells that hold "
-              "a live callable or nothing, where reading a destroyed object or constructing over a live one is an error.  Lean 4 proves "
-              "without bounds: the six pair relations equal the lexicographic three-way comparison for every asymmetric element order "
-              "and form a strict total order with its derived relations for strict total element orders; tuple == is list equality for "
-              "every arity >= 1; every member-wise operation equals its whole-object spec (values, moved-from residues, copy counts) "
-              "for every arity and kind combination; tuple_cat of any number of tuples is their concatenation and never reads out of "
-              "range; every wrapper call appends exactly one log entry, for the wrapped target, with the given arguments and "
-              "categories, and returns its result unchanged; for every history of construct/copy/move/assign/swap/reset/call on "
-              "inplace_function (any length, any number of objects, including self-assignment and self-swap) the thunk machine never "
-              "fails (no use of a destroyed closure, no construction over a live one), keeps vtable and storage consistent, leaves no "
-              "temporary alive, and refines the abstract owner semantics: copies call an equivalent target, a move empties the source, "
-              "swap exchanges, an empty object reports bad_function_call and logs nothing, a call logs exactly one entry.  The model "
-              "is tied to the current source on every run by executing model and implementation on the same lines under ASan/UBSan "
-              "with instrumented elements and callables; the spec is validated against libstdc++ on the same lines.")
+              "swap, get, the relational operators as written through operator< only, the tuple equality fold with its arity-0 branch, "
+              "tuple_cat as the left fold of pairwise concatenation, apply / make_from_tuple as index-sequence expansions with checked "
+              "element reads); invoke as its three-way member-pointer dispatch; reference_wrapper, function_ref, bind_front (bound "
+              "arguments stored decayed, a reference_wrapper kept as a wrapper), not_fn as the calls they forward to; inplace_function as "
+              "its vtable thunks (copy, relocate, destroy, invoke) acting on storage cells that hold a live callable or nothing, where "
+              "reading a destroyed object or constructing over a live one is an error.  Lean 4 proves without bounds: (a) the six pair "
+              "relations equal the lexicographic three-way comparison for every element order synthesised from an asymmetric <, form a "
+              "strict total order with its derived relations for strict total element orders, and for double elements equal std::pair's "
+              "exactly on the inputs outside the NaN class of the known finding (and differ on every input inside it); (b) tuple == never "
+              "fails and is list equality for every arity including 0; (c) tuple_cat of one or more tuples is their concatenation and never "
+              "reads out of range; (d) for every history of construct/copy/move/assign/swap/reset/call on inplace_function (any length, any "
+              "number of objects, including self-assignment and self-swap) the thunk machine never fails (no use of a destroyed closure, no "
+              "construction over a live one), keeps vtable and storage consistent, leaves no temporary alive, and refines the abstract "
+              "owner semantics: copies call an equivalent target, a move empties the source, swap exchanges, an empty object reports "
+              "bad_function_call and logs nothing, a call logs exactly one entry.  Also stated and proved, but with little proof content "
+              "because model and specification are the same few lines: (e) the member-wise pair/tuple operations (default/copy/move "
+              "construction, assignment, swap, get, make_from_tuple) equal their map/sum form for every arity and kind list (bookkeeping "
+              "identities: the recursion is a map); (f) the outcome of a call through invoke, reference_wrapper, function_ref, bind_front, "
+              "not_fn and apply satisfies the predicate Spec.CalledOnce (exactly one log entry, for the wrapped target, through the "
+              "prescribed object category, with the given arguments - a bound reference_wrapper still a wrapper -, result handed back) - a "
+              "case split on the callee kind.  For (e) and (f) the weight is carried by the correspondence run: model and implementation "
+              "are executed on the same lines under ASan/UBSan with instrumented elements and callables on every run, and the executable "
+              "spec is validated against libstdc++ on the same lines.")
 LEVEL_NOTE = ("Trusted: Lean kernel + propext/Classical.choice/Quot.sound; the hand model's fidelity outside the explored inputs; g++-12/ASan; "
-              "libstdc++ as oracle.  Value-category preservation (decltype) is not carried by the value-level model: it is checked by a "
-              "compile-time static_assert matrix against libstdc++ (coverage.unproved_observed) and, where the headers are known to differ, "
-              "reported at run time as KNOWN-FINDING lines.")
+              "libstdc++ as oracle.  Value-category preservation as a type-level fact (decltype) is not carried by the value-level model and "
+              "not proved: it is checked by a compile-time static_assert matrix against libstdc++ (coverage.unproved_observed) and, where the "
+              "headers are known to differ, reported at run time as KNOWN-FINDING lines.  Not generated (see coverage.unproved_observed): "
+              "tuples of mixed element kinds, const-qualified callables in not_fn, function_ref<R(Args...) noexcept>, apply / bind_front / "
+              "not_fn over member pointers, ref(reference_wrapper), tuple_cat() without arguments.")
 UNPROVED_OBSERVED = [
     "value-category / element-type preservation (decltype): static_assert matrix in harness/c20.cpp — get<I> on pair and tuple for all 49 "
     "combinations of {int, move-only, copy-only, int&, int const, int&&, instrumented} x four reference qualifications against std::get; "
@@ -319,29 +372,43 @@ UNPROVED_OBSERVED = [
     "reference_wrapper, bind_front, not_fn, make_tuple, make_pair, forward_as_tuple, tie, tuple_cat, make_from_tuple — compile-time "
     "differential testing, no theorem",
     "the run-time projection of value categories (which ref-qualified operator() overload and which parameter category the instrumented "
-    "target sees; moved-from residues; copy counts) is modelled and compared on every line, and covered by the theorems as data",
+    "target sees, whether an argument arrives as a reference_wrapper; moved-from residues; copy counts) is modelled and compared on "
+    "every line; the theorems treat it as data",
     "live closure count and lifetime registry of the harness (non-trivially copyable closures only): observed on every history line",
+    "NOT exercised at all (neither generated nor modelled): tuples whose elements have different kinds (value operations use uniform "
+    "kinds; the 36 kind combinations are covered for pair only); tuple_cat of reference / const / mixed-kind tuples and of const-lvalue "
+    "or const-rvalue tuples; not_fn / bind_front around a const callable or a member pointer; apply with a member pointer; "
+    "function_ref<R(Args...) noexcept>; ref(reference_wrapper) / cref(reference_wrapper); tuple_cat() with no argument (hard error in "
+    "etl, tuple<> in std)",
 ]
 CORRESPONDENCE_ONLY = [
     "make_pair / make_tuple / forward_as_tuple / tie / structured binding of pair: value-level identity in the model (copyAll / moveAll / getAll); "
     "the reference binding itself (aliasing) is checked by the harness only",
     "converting pair constructors and assignments (pair<U1,U2>): modelled by the same member-wise definitions as the non-converting ones",
     "reference_wrapper copy / rebind and function_ref copy: the copy designates the same target; modelled as the same call",
+    "copy and move construction of the bind_front and not_fn wrappers (act=copy|move lines): the new wrapper calls an equivalent target; "
+    "modelled as the same call, the extra copies of bound arguments are counted by the driver",
     "inplace_function: operator==/!= with nullptr are modelled as operator bool; free swap as member swap; closure size and trivial "
     "copyability are data of the model (ty) with no effect on it, exercised by the harness over 10 closure types",
-    "inplace_function<R(Args...)> argument forwarding for class-type parameters (ifn2 lines): modelled by functionRefCall with an lvalue target",
-    "the number of copies made while binding arguments (bind_front) and while passing a by-value argument (function_ref, inplace_function): "
-    "computed by the driver from the argument categories, no theorem",
+    "inplace_function<R(Args...)> argument forwarding for class-type parameters and around a pointer to member (ifn2 lines): modelled by "
+    "functionRefCall with an lvalue target",
+    "the number of copies made while binding arguments (bind_front), while copying a wrapper, by tuple_cat (driver: copyAll / moveAll over "
+    "the flattened elements) and while passing a by-value argument (function_ref, inplace_function): computed by the driver from the "
+    "argument categories, no theorem",
+    "Lemmas.invoke_spec / refWrap_spec / functionRef_spec / bindFront_spec / notFn_spec / apply_spec (model = executable spec): "
+    "transcription checks between two copies of the same few lines, deliberately not counted as property theorems",
 ]
 THEOREMS = {
-    "pair": ["Tetl.C20.Props.pair_rels_eq_partial", "Tetl.C20.Props.pair_lt_iff", "Tetl.C20.Props.copyAll_eq", "Tetl.C20.Props.moveAll_eq",
+    "pair": ["Tetl.C20.Props.pair_rels_eq_synth3", "Tetl.C20.Props.pair_rels_dbl_iff", "Tetl.C20.Props.pair_rels_dbl_partial",
+             "Tetl.C20.Props.pair_lt_iff", "Tetl.C20.Props.pair_trichotomy", "Tetl.C20.Props.pair_derived", "Tetl.C20.Props.pair_lt_trans",
+             "Tetl.C20.Props.defaultAll_eq", "Tetl.C20.Props.copyAll_eq", "Tetl.C20.Props.moveAll_eq",
              "Tetl.C20.Props.assignAll_eq", "Tetl.C20.Props.moveAssignAll_eq", "Tetl.C20.Props.swapAll_eq", "Tetl.C20.Props.getAll_eq"],
-    "tuple": ["Tetl.C20.Props.tuple_eq_iff", "Tetl.C20.Props.copyAll_eq", "Tetl.C20.Props.moveAll_eq", "Tetl.C20.Props.swapAll_eq",
-              "Tetl.C20.Props.getAll_eq", "Tetl.C20.Props.apply_eq"],
+    "tuple": ["Tetl.C20.Props.tuple_eq_iff", "Tetl.C20.Props.defaultAll_eq", "Tetl.C20.Props.copyAll_eq", "Tetl.C20.Props.moveAll_eq",
+              "Tetl.C20.Props.swapAll_eq", "Tetl.C20.Props.getAll_eq", "Tetl.C20.Props.makeFromTuple_eq", "Tetl.C20.Props.apply_once"],
     "tcat": ["Tetl.C20.Props.tuple_cat_eq"],
-    "invoke": ["Tetl.C20.Props.invoke_eq", "Tetl.C20.Props.invoke_call_once"],
-    "fref": ["Tetl.C20.Props.functionRef_eq"], "ifn2": ["Tetl.C20.Props.functionRef_eq"],
-    "rw": ["Tetl.C20.Props.refWrap_eq"], "bf": ["Tetl.C20.Props.bindFront_eq"], "nf": ["Tetl.C20.Props.notFn_eq"],
+    "invoke": ["Tetl.C20.Props.invoke_once", "Tetl.C20.Props.invoke_memdata"],
+    "fref": ["Tetl.C20.Props.functionRef_once"], "ifn2": ["Tetl.C20.Props.functionRef_once"],
+    "rw": ["Tetl.C20.Props.refWrap_once"], "bf": ["Tetl.C20.Props.bindFront_once"], "nf": ["Tetl.C20.Props.notFn_once"],
     "ifn": ["Tetl.C20.Props.step_refines", "Tetl.C20.Props.run_refines", "Tetl.C20.Props.run_never_errors",
             "Tetl.C20.Props.empty_never_calls", "Tetl.C20.Props.call_once"],
     "new": ["Tetl.C20.Props.run_refines"],
@@ -355,5 +422,5 @@ NOTES_FOR_OTHER_PROPERTIES = [
     "C15: etl::is_nothrow_swappable<T const> is a hard error instead of false (reached through the noexcept specification of pair::swap), "
     "so std::is_swappable_v<etl::pair<int, int const>> does not compile",
     "C15: etl::unwrap_ref_decay has its condition inverted and the primary etl::unwrap_reference is undefined "
-    "(bind_front now uses detail::unwrap_decay_t of make_tuple.hpp instead)",
+    "(bind_front does not use it any more: it stores decay_t<BoundArgs>)",
 ]
